@@ -305,6 +305,9 @@ class Gen:
 def gen_recipe(rng, weights=None):
     g = Gen(rng, weights)
     r = g.recipe()
+    if "random_reference" in g.features:       # parameters of the injected draw stream (chooser_for)
+        r["raw"] = [rng.randint(0, 10 ** 6) for _ in range(60)]
+        r["bias"] = rng.choice(["lo", "hi", "mix", "mix"])
     return r, sorted(g.features)
 
 
@@ -515,6 +518,9 @@ def make_capture():
                 elif isinstance(v, int):
                     fs.append([k, ["int", v]])
                 elif isinstance(v, str):
+                    if " at 0x" in v:          # repr of an object inside a string: the address varies
+                        import re as _re
+                        v = _re.sub(r" at 0x[0-9a-fA-F]+", " at 0x", v)
                     fs.append([k, ["str", v]])
                 elif v is None:
                     fs.append([k, ["none"]])
@@ -791,3 +797,31 @@ def random_cuts(rng, k):
         return [k]
     cut = sorted(rng.sample(range(1, k), rng.randint(1, k - 1)))
     return [b - a for a, b in zip([0] + cut, cut + [k])]
+
+
+def stream_randref_nicks(rng):
+    """one table fed by several templates with different nicknames (some just_once, some in friends),
+    then pickers with random_reference to every nickname and to the table itself"""
+    nicks = rng.sample(["jo", "aa", "zz", "kid"], rng.randint(2, 3))
+    stmts, names = [], []
+    order = list(nicks)
+    rng.shuffle(order)
+    for j, nk in enumerate(order):
+        once = (nk == "jo") or rng.random() < 0.2
+        cnt = rng.choice([None, ["int", 2], ["int", 3]])
+        t = _T("A", nk, once, [("tag", ["str", nk]), ("n", ["int", 10 * (j + 1)])], count=cnt)
+        if nk == "kid" and not once:      # declared on a friend template only
+            stmts.append(["obj", _T("W", None, False, [("w", ["int", 1])], friends=[["obj", t]])])
+        else:
+            stmts.append(["obj", t])
+        names.append(nk)
+    if rng.random() < 0.5:
+        stmts.insert(rng.randint(0, len(stmts)), ["obj", _T("A", None, False, [("tag", ["str", "plain"])])])
+    names.append("A")
+    fields = []
+    for q, nm in enumerate(names):
+        fields.append(("r%d" % q, ["randref", nm]))
+    stmts.append(["obj", _T("P", None, False, fields, count=["int", rng.randint(1, 3)])])
+    return {"version": rng.choice([2, 3]), "options": [], "stmts": stmts,
+            "raw": [rng.randint(0, 10 ** 6) for _ in range(60)], "bias": rng.choice(["lo", "hi", "mix", "mix"])}, \
+        ["random_reference", "nick", "just_once", "randref_nicks"]
